@@ -291,7 +291,7 @@ def span_close_bookkeeping(F, R):
     cl = A.closure_of_operand(F, sweeps[0][0], sweeps[0][2]["args"][1])
     if cl is None:
         raise Unverifiable("predicate of the span-entry sweep")
-    V = ("arg", 3)
+    V = ("arg", 3 if cl.kind == "Closure" else 2)     # (key, value): a closure has its environment in front
     srows = D.Deep(F, cl, max_paths=400).run()
     if not srows:
         raise Unverifiable("span-entry sweep: empty table")
